@@ -32,7 +32,7 @@ def build(tier):
     obs.append(lay("indent", 3, 2, 2, True, "cpp_member", t, lens=(2, 0, 2)))
     obs.append(lay("indent", 3, 2, 1, False, "function", t, lens=(1, 0, 1)))
     for (n, l, k, leader, kind) in ([(2, 2, 0, True, "function"), (1, 2, 2, True, "set")] if quick else
-                                    [(3, 3, 0, True, "function"), (2, 3, 2, True, "set"), (2, 3, 1, True, "cpp_attr"), (2, 2, 0, False, "macro")]):
+                                    [(3, 2, 0, True, "function"), (2, 3, 0, True, "function"), (2, 3, 2, True, "set"), (2, 3, 1, True, "cpp_attr"), (2, 2, 0, False, "macro")]):
         obs.append(lay("crlf", n, l, k, leader, kind, t))
     # C04.c letter case of command names and C04.f token positions: symbolic in every inductive-step shard (oracle ignores them)
     obs += steps.step_obligations("C04.c/f", ["function", "set", "cpp_class", "cpp_end_class", "endmacro", "ct_add_test", "option"], tier, 1, 1, symargs=False)
